@@ -272,6 +272,20 @@ fn mutate_sig(sig: &[u8], m: &Value) -> Vec<u8> {
             }
         }
         "upper" => s = s.to_ascii_uppercase(),
+        "upperflip" => {
+            // the whole signature in upper case, and the hex digit at `pos` replaced within its class
+            s = s.to_ascii_uppercase();
+            let p = get_i64(m, "pos") as usize;
+            if p < s.len() {
+                s[p] = match s[p] {
+                    b'0'..=b'8' => s[p] + 1,
+                    b'9' => b'0',
+                    b'A'..=b'E' => s[p] + 1,
+                    b'F' => b'A',
+                    x => x,
+                };
+            }
+        }
         "trunc" => s.truncate(get_i64(m, "n") as usize),
         "append" => s.extend_from_slice(&get_bytes(m, "b")),
         "empty" => s.clear(),
